@@ -29,7 +29,7 @@ CLASSIFICATION = {
     ("core/engine/src/vm/code_block.rs", "CODEBLOCK_ID_COUNTER"): (COUNTER, "code block identity for inline-cache bookkeeping; not script visible"),
     ("core/engine/src/builtins/symbol/mod.rs", "GLOBAL_SYMBOL_REGISTRY"): (CONTENT, "Symbol.for / Symbol.keyFor: ECMA-262 GlobalSymbolRegistry is shared by all realms; process wide here (also across contexts: invisible unless symbols cross contexts)"),
     ("core/engine/src/builtins/atomics/futex.rs", "CRITICAL_SECTION"): (SHARED, "waiter lists of Atomics.wait/notify on shared memory"),
-    ("core/engine/src/context/mod.rs", "CANNOT_BLOCK_COUNTER"): (SCRATCH, "number of live contexts of the thread that may not block (Atomics.wait); per-thread by design, decremented on drop"),
+    ("core/engine/src/context/mod.rs", "CANNOT_BLOCK_COUNTER"): (SCRATCH, "host policy: number of live contexts of the thread that may not block; incremented in ContextBuilder::build, decremented in Drop, read only by build (host API), never by scripts"),
     ("core/string/src/common.rs", "RAW_STATICS_CACHE"): (CONTENT, "static string table: content -> &'static StaticString, built once from RAW_STATICS"),
     ("core/gc/src/lib.rs", "GC_DROPPING"): (HEAP, "true only inside the sweep phase"),
     ("core/gc/src/lib.rs", "BOA_GC"): (HEAP, "the thread's heap"),
